@@ -70,7 +70,7 @@ class C02(Prop):
                 if depth >= 2:
                     toks.append(["b", rng.choice(ALPHA)])
                     continue
-                nalt = rng.range(2, 3)
+                nalt = 1 if rng.chance(1, 5) else rng.range(2, 3)      # `( 33 44 )`: a group without `|`
                 toks.append(["alt", [self.gen_tokens(rng, depth + 1, True, 3) for _ in range(nalt)]])
         return toks
 
@@ -151,7 +151,34 @@ class C02(Prop):
         src = "rule r { strings: $a = { %s } condition: $a or true }" % _hir.hex_text(toks)
         return {"toks": toks, "src": src, "inputs": inputs}
 
+    def gen_single_branch(self, rng):
+        """parenthesised groups WITHOUT `|` (an alternation with one branch) next to jumps / `??`, on a side where
+        a validator is built: the node positions of literal extraction and of the pre/post extraction must agree"""
+        byte = lambda: ["b", rng.choice([0x0A, 0x11, 0x22, 0x33, 0x44, 0x55, 0x66, 0x41, 0x42])]
+        grp = lambda: ["alt", [[byte() for _ in range(rng.range(1, 3))]]]
+        gap = lambda: rng.choice([["j", 1, 2], ["j", 2, 2], ["m", 0, "A"], ["j", 0, 3]])
+        parts = [byte()]
+        if rng.chance(1, 2):
+            parts += [gap(), byte(), byte()]
+        parts += [grp()] if rng.chance(2, 3) else [byte(), grp(), byte()]
+        if rng.chance(1, 2):
+            parts += [gap()]
+        parts += [byte() for _ in range(rng.range(2, 6))]
+        if rng.chance(1, 3):
+            parts += [grp()]
+        parts += [gap(), byte()]
+        if rng.chance(1, 3):
+            parts = [["alt", [parts[:3]]]] + parts[3:] if parts[0][0] == "b" and parts[1][0] == "b" and parts[2][0] == "b" else parts
+        toks = parts
+        used = sorted(_hir.hex_bytes_used(toks, set())) or ALPHA
+        alphabet = used * 3 + ALPHA[:4]
+        inputs = [self.gen_input(rng.fork("i%d" % i), toks, alphabet).hex() for i in range(4)]
+        src = "rule r { strings: $a = { %s } condition: $a or true }" % _hir.hex_text(toks)
+        return {"toks": toks, "src": src, "inputs": inputs}
+
     def gen_case(self, rng):
+        if rng.chance(1, 14):
+            return self.gen_single_branch(rng)
         if rng.chance(1, 12):
             return self.gen_wildcard_edge(rng)
         if rng.chance(1, 8):
@@ -239,7 +266,7 @@ class C02(Prop):
     # ---------------------------------------------------------------- execution
     def execute(self, ctx, cases):
         hc = [{"rules": [{"ns": None, "src": c["src"]}], "params": {"compute_full_matches": True},
-               "inputs": c["inputs"]} for c in cases]
+               "inputs": c["inputs"], "both_profiles": True} for c in cases]
         outs = core.harness_run(ctx.binp, "c02", hc)
         for c, o in zip(cases, outs):
             if isinstance(o, dict) and "desc" in o and o["desc"]:
@@ -267,6 +294,9 @@ class C02(Prop):
     def term(self, ctx, case, out):
         if not isinstance(out, dict) or "desc" not in out or len(out["desc"]) != 1 or out["desc"][0]["hir"] is None:
             return (False, False, 0)       # a legal hex string must compile and scan
+        if not _hir.profiles_agree(out):
+            ctx.count("profiles_disagree")
+            return (False, False, 0)       # the answer depends on the compiler profile: one of the two is wrong
         if len(out["desc"][0]["literals"]) > 4000:
             # the description does not fit in one Gallina term (coqc overflows its stack): not evaluated
             ctx.count("not_evaluated_too_many_literals")
